@@ -3,6 +3,7 @@ package lib
 
 import (
 	"context"
+	"runtime"
 	"sort"
 	"sync"
 	"sync/atomic"
@@ -281,4 +282,38 @@ func AfterFunc() int {
 	t := time.AfterFunc(10*time.Millisecond, func() { got <- 5 })
 	defer t.Stop()
 	return <-got
+}
+
+var onceTable = sync.OnceValue(func() map[int]int {
+	m := map[int]int{}
+	for i := 0; i < 8; i++ {
+		m[i] = i * i
+	}
+	return m
+})
+
+// Misc: OnceValue, Locker interface values (Mutex, RWMutex.RLocker), Gosched spin then block.
+func Misc(k int) int {
+	v := onceTable()[k%8]
+	var rw sync.RWMutex
+	var l sync.Locker = rw.RLocker()
+	l.Lock()
+	v += 1
+	l.Unlock()
+	var mu sync.Mutex
+	l = &mu
+	l.Lock()
+	v += 1
+	l.Unlock()
+	var flag atomic.Bool
+	done := make(chan struct{})
+	go func() {
+		for i := 0; i < 3 && !flag.Load(); i++ {
+			runtime.Gosched()
+		}
+		close(done)
+	}()
+	flag.Store(true)
+	<-done
+	return v
 }
